@@ -58,7 +58,7 @@ fn run<G: Group>(sc: &Scenario, st: &mut RunStats) -> Vec<Violation> {
         }
     }
     st.event(format!("honest message cfg={:?} seed={} accepted", sc.cfg, sc.wit.seed_nonce.is_some()));
-    let mut frng = SimRng::new(sc.fault_seed);
+    let frng = SimRng::new(sc.fault_seed);
     let faults = enumerate_faults(&msg, &mut frng.split("enumerate"));
     st.probe(&format!("ext_{}", sc.cfg.ext));
     if sc.cfg.m >= 8 {
